@@ -92,3 +92,19 @@ Proof.
   eexists. split; [apply apply_rules_fold; apply all_other_sorted; exact H|].
   intro c. apply fold_real_last.
 Qed.
+
+(* the memory read of both walkers takes the evaluator's 64-bit address as it is: a successful read lies entirely
+   inside [base, base + len) - the address is never folded into a narrower address space; only the VALUE read has
+   the register width *)
+Lemma mem_read_exact : forall w base data addr,
+  (forall v, mem_read w base data addr = Some v ->
+     base <= addr /\ addr - base + w <= blen data /\
+     v = le_val (firstn (Z.to_nat w) (skipn (Z.to_nat (addr - base)) data))) /\
+  (addr < base \/ blen data < addr - base + w -> mem_read w base data addr = None).
+Proof.
+  intros w base data addr. unfold mem_read.
+  destruct ((base <=? addr) && (addr - base + w <=? blen data)) eqn:C.
+  - apply Bool.andb_true_iff in C. destruct C as [C1 C2]. apply Z.leb_le in C1. apply Z.leb_le in C2.
+    split; [intros v H; injection H as <-; repeat split; lia|lia].
+  - split; [discriminate|reflexivity].
+Qed.
